@@ -1,7 +1,8 @@
 (* Model coherence layer: everything, with the assumptions of every main link theorem.
    harness/links_check.sh rebuilds this file and counts "Closed under the global context". *)
 From PM Require Links.Builders Links.Rewrite Links.ParseErrors Links.ForwardConversation
-  Links.FirstRequestForward Links.Flush Links.UrlLink Links.HandlerAbstraction.
+  Links.FirstRequestForward Links.Flush Links.UrlLink Links.HandlerAbstraction
+  Links.EventLoops Links.EventLoopsIntercept Links.EventLoopsChain Links.EventLoopsConnect.
 
 (* ---- 1. builders (Http/Builders.v = Net/Static.v = Net/Responses.v = Net/Reverse.v = Net/Auth.v) ---- *)
 Print Assumptions Links.Builders.static_build_http_pkt_eq.
@@ -63,3 +64,35 @@ Print Assumptions Links.UrlLink.cfg_url_is_reverse_record.
 Print Assumptions Links.UrlLink.reverse_upstream_port_agree.
 Print Assumptions Links.UrlLink.reverse_host_value_agree.
 Print Assumptions Links.UrlLink.reverse_forwarded_bytes_agree.
+
+(* ---- part 2: the event loops above handle_data ---- *)
+(* FirstRequest.v (C06) <-> Handler.v (C01/C07/C20) *)
+Print Assumptions Links.EventLoops.handle_data_sim.
+Print Assumptions Links.EventLoops.flush_sim.
+Print Assumptions Links.EventLoops.hw_sim.
+Print Assumptions Links.EventLoops.get_events_agree.
+Print Assumptions Links.EventLoops.step_sim.
+Print Assumptions Links.EventLoops.run_sim.
+Print Assumptions Links.EventLoops.run_sim_fresh.
+Print Assumptions Links.EventLoops.event_loops_example.
+(* Intercept.v (C11) <-> Handler.v *)
+Print Assumptions Links.EventLoopsIntercept.handle_events_split.
+Print Assumptions Links.EventLoopsIntercept.conn_flush_eq.
+Print Assumptions Links.EventLoopsIntercept.cw_sim.
+Print Assumptions Links.EventLoopsIntercept.uw_sim.
+Print Assumptions Links.EventLoopsIntercept.cd_sim.
+Print Assumptions Links.EventLoopsIntercept.ud_sim.
+Print Assumptions Links.EventLoopsIntercept.step_sim.
+Print Assumptions Links.EventLoopsIntercept.run_sim.
+Print Assumptions Links.EventLoopsIntercept.intercept_relay_example.
+(* PluginChain.v (C08/C09) <-> Handler.v *)
+Print Assumptions Links.EventLoopsChain.handler_reads_teared_skips_reads.
+Print Assumptions Links.EventLoopsChain.chain_relay_is_handler.
+Print Assumptions Links.EventLoopsChain.chain_shutdown_is_handler.
+(* Intercept.handle_connect as a routing function *)
+Print Assumptions Links.EventLoopsConnect.handle_connect_is_route.
+(* disagreements *)
+Print Assumptions Links.EventLoopsIntercept.intercept_response_parse_differ.
+Print Assumptions Links.EventLoopsIntercept.intercept_pipeline_protocol_exception_differ.
+Print Assumptions Links.EventLoopsChain.chain_oserror_drain_differ.
+Print Assumptions Links.EventLoopsChain.firstrequest_hook_oserror_tears_reads.
